@@ -392,6 +392,25 @@ def run(ctx):
     regs = [g for g in registrations(cas, prog) if g["cb"] is not None and prog.resolve_callable(cas, g["cb"]) is ok_s]
     r.check(bool(regs) and all(g["kind"] in ("cb", "cbs") for g in regs), "%s#success-after-commit" % cas.qname,
             "the shutdown success step is not the on-success continuation of commit()", where(cas, cas.node))
+    # commit() may skip the request only when nothing was processed or processed == committed
+    cm = ctx.func(CONS + ".commit")
+    ccm = ctx.cfg(cm)
+    sc_ret = [n for n in ccm.nodes if n.kind == "stmt" and isinstance(n.stmt, ast.Return) and isinstance(n.stmt.value, ast.Call) and
+              call_name(n.stmt.value) == "succeed"]
+    okc = bool(sc_ret)
+    for n in sc_ret:
+        tests = [t for t, lab in ccm.control_deps(n.id) if t.kind == "test"]
+        okc = okc and len(tests) == 1
+        if tests:
+            tt = tests[0].stmt.test
+            vals = tt.values if isinstance(tt, ast.BoolOp) and isinstance(tt.op, ast.Or) else [tt]
+            texts = sorted(norm(v) for v in vals)
+            okc = okc and texts in (sorted(["self._last_processed_offset is None", "self._last_processed_offset == self._last_committed_offset"]),
+                                    sorted(["self._last_processed_offset is None", "self._last_committed_offset == self._last_processed_offset"]))
+    r.check(okc, "%s#skip-only-when-equal" % cm.qname,
+            "commit() skips the request under a condition other than `nothing processed or processed == committed`", where(cm, cm.node),
+            "consumer rewound below the committed offset (restart further back / offset reset): shutdown reports success without "
+            "committing, last committed != last processed")
     fail_h = shutdown.nested.get("_handle_shutdown_commit_failure")
     okp = False
     if fail_h is not None:
@@ -446,6 +465,76 @@ def run(ctx):
                 "without checking .active()" % (a, sorted(g.name for g in cbs)), where(stop, stop.node),
                 "after a commit/fetch retry timer has fired, stop() raises AlreadyCalled half-way: looper left running, start Deferred unfired",
                 facts=["callbacks=%s" % sorted(g.name for g in cbs)])
+
+    # ---- R8 teardown order: cancelling a Deferred handle runs its chain synchronously; whatever that chain can start
+    # must be cancelled afterwards
+    r = ctx.rule("R8", "stop() cancels a Deferred handle before the handles its chain can (re)arm", 3, "C")
+    from .util import reachable_funcs
+    cstop = ctx.cfg(stop)
+
+    def arms(func):
+        """handle attrs that func (own scope) assigns a non-None value / appends to"""
+        out = set()
+        for x in walk_body_shallow(func.body):
+            if isinstance(x, ast.Assign) and not (isinstance(x.value, ast.Constant) and x.value.value is None):
+                for t in x.targets:
+                    for tt in (t.elts if isinstance(t, ast.Tuple) else [t]):
+                        a = self_attr(tt)
+                        if a in active and _is_handle_value(x.value):
+                            out.add(a)
+            if isinstance(x, ast.Call) and call_name(x) == "append" and isinstance(x.func.value, ast.Attribute) and self_attr(x.func.value) in active:
+                out.add(self_attr(x.func.value))
+        return out
+    order_checked = 0
+    for h, k in sorted(active.items()):
+        if k not in ("deferred", "list") or h not in sc:
+            continue
+        hs = []
+        for f2 in [x for x in prog.funcs.values() if x.cls is ci]:
+            al = aliases_of(f2, "self." + h)
+            for reg in registrations(f2, prog):
+                if reg["root"] in al:
+                    for hh in (reg["cb"], reg["eb"]):
+                        g = prog.resolve_callable(f2, hh) if hh is not None else None
+                        if g is not None:
+                            hs.append(g)
+        started = set()
+
+        def sync_reach(g0):
+            """functions that can run synchronously once g0 runs: direct calls and Deferred-chain registrations
+            (a timer's callback does not run synchronously; arming the timer is recorded by arms())"""
+            seen, stack = {}, [g0]
+            while stack:
+                g = stack.pop()
+                if g.qname in seen:
+                    continue
+                seen[g.qname] = g
+                for x in walk_body_shallow(g.body):
+                    if isinstance(x, ast.Call):
+                        cal = prog.resolve_call(g, x)
+                        if cal is not None:
+                            stack.append(cal)
+                        if call_name(x) in ("addCallback", "addErrback", "addBoth", "addCallbacks", "maybeDeferred"):
+                            for a in x.args[:2]:
+                                hh2 = prog.resolve_callable(g, a)
+                                if hh2 is not None:
+                                    stack.append(hh2)
+            return seen
+        for g in hs:
+            for q, gg in sync_reach(g).items():
+                if gg.cls is ci:
+                    started |= arms(gg)
+        started.discard(h)
+        for h2 in sorted(started & set(sc)):
+            n1 = min(n.id for n, c in sc[h])
+            first = [n for n, c in sc[h]][0]
+            later = all(n2.id in cstop.reach([first.id]) and first.id not in cstop.reach([n2.id]) for n2, c2 in sc[h2])
+            order_checked += 1
+            r.check(later, "%s#cancel(%s)-before-cancel(%s)" % (stop.qname, h, h2),
+                    "stop() cancels self.%s after self.%s, although the chain of self.%s can (re)arm self.%s when it is cancelled" % (h, h2, h, h2),
+                    where(stop, first.stmt), "shutdown() waiting on the processor, then stop(): cancelling the processor last runs the "
+                    "commit-and-stop continuation after the commit teardown - a commit request is outstanding after stop() returned")
+    r.info("ordered pairs checked: %d" % order_checked)
 
     # ---- R6 restartable
     r = ctx.rule("R6", "stop() resets _stopping, and every handle that gates a function start() calls is clear after stop()", 2, "A")
@@ -542,6 +631,14 @@ MUTANTS = [
     {"id": "stop-leaves-fired-request-handle", "file": "consumer.py",
      "old": "            # It may already have fired (a reply parked behind the processor):\n            # don't let a stale handle block the fetcher after a restart.\n            self._request_d = None\n",
      "new": "", "expect": "C13.R6", "note": "finding F15"},
+    {"id": "processor-cancelled-last", "file": "consumer.py",
+     "edits": [("consumer.py", "        # Are we waiting for the processor to complete?\n        if self._processor_d:\n            self._processor_d.cancel()\n", ""),
+               ("consumer.py", "        # Done stopping\n        self._stopping = False", "        if self._processor_d:\n            self._processor_d.cancel()\n        # Done stopping\n        self._stopping = False")],
+     "expect": "C13.R8", "note": "seeded C13-3"},
+    {"id": "commit-skip-when-below", "file": "consumer.py",
+     "old": "if (self._last_processed_offset is None) or (self._last_processed_offset == self._last_committed_offset):",
+     "new": "if (self._last_processed_offset is None) or (self._last_committed_offset is not None and self._last_processed_offset <= self._last_committed_offset):",
+     "expect": "C13.R5", "note": "seeded C13-4"},
     {"id": "stopping-not-reset", "file": "consumer.py", "old": "        # Done stopping\n        self._stopping = False\n", "new": "",
      "expect": "C13.R6"},
 ]
